@@ -756,4 +756,65 @@ theorem parse_render_word (Sy : Syms) (t : RTok) (hok : renderOK Sy t = true) (h
     | allow S => exact absurd hs (hna S)
     | _ => rfl
 
+/-! ### outside the region of finding C05-F2 the unrepaired parser gives the documented meaning -/
+
+mutual
+  /-- no function pattern of the tree has only wildcard arguments (the decidable complement of the
+      region of finding C05-F2, evaluated with the grammar's symbols) -/
+  def noCollapse (Sy : Syms) : RTok → Bool
+    | .func _ args => (match semArgs Sy args with
+        | some as => !(as.all isAny)
+        | none => true) && noCollapses Sy args
+    | _ => true
+  def noCollapses (Sy : Syms) : List RTok → Bool
+    | [] => true
+    | a :: as => noCollapse Sy a && noCollapses Sy as
+end
+
+/-- the same symbols, parser with fixes_proposed/C05-F2.diff -/
+def withF2 (Sy : Syms) : Syms := { Sy with fixF2 := true }
+
+theorem resolveNames_withF2 (Sy : Syms) (ns : List Str) : resolveNames (withF2 Sy) ns = resolveNames Sy ns := rfl
+theorem resolveNeg_withF2 (Sy : Syms) (ns : List Str) : resolveNeg (withF2 Sy) ns = resolveNeg Sy ns := rfl
+
+mutual
+  theorem sem_withF2 (Sy : Syms) : ∀ t, noCollapse Sy t = true → sem (withF2 Sy) t = sem Sy t
+    | .any, _ => by simp [sem]
+    | .set (.names ns), _ => by simp [sem, resolveNames_withF2]
+    | .set (.neg ns), _ => by simp [sem, resolveNeg_withF2]
+    | .cntAll most ds, _ => by simp [sem, withF2]
+    | .cnt most ns ds, _ => by simp [sem, resolveNames_withF2]
+    | .sub force ns, _ => by simp [sem, resolveNames_withF2]
+    | .func h args, hn => by
+      simp only [noCollapse, Bool.and_eq_true] at hn
+      have ha := semArgs_withF2 Sy args hn.2
+      simp only [sem, ha, resolveNames_withF2, resolveNeg_withF2]
+      have fin : ∀ (hh : Option (List Sym)),
+          (match hh, semArgs Sy args with
+            | some H, some as => if !(withF2 Sy).fixF2 && as.all isAny then some Tok.any else some (Tok.func H as)
+            | _, _ => none) =
+          (match hh, semArgs Sy args with
+            | some H, some as => if !Sy.fixF2 && as.all isAny then some Tok.any else some (Tok.func H as)
+            | _, _ => none) := by
+        intro hh
+        cases hh with
+        | none => rfl
+        | some H =>
+          cases hs : semArgs Sy args with
+          | none => rfl
+          | some as =>
+            have := hn.1
+            rw [hs] at this
+            simp only [Bool.not_eq_true'] at this
+            simp [this, withF2]
+      cases h with
+      | names ns => exact fin _
+      | neg ns => exact fin _
+  theorem semArgs_withF2 (Sy : Syms) : ∀ args, noCollapses Sy args = true → semArgs (withF2 Sy) args = semArgs Sy args
+    | [], _ => by simp [semArgs]
+    | a :: as, hn => by
+      simp only [noCollapses, Bool.and_eq_true] at hn
+      simp only [semArgs, sem_withF2 Sy a hn.1, semArgs_withF2 Sy as hn.2]
+end
+
 end PS.C05
